@@ -26,19 +26,20 @@ and complete with respect to the listings (the paths whose entry differs
 between the last commit and now are exactly the paths named by the status).
 A failing sequence is delta-debugged to a minimal op list before it is reported.
 
-Known defects of the unchanged code found by this check (family slugs, each
-computed from the concrete failing step):
- dirstate-add-below-unversioned-directory-of-basis  (bzr: add of a path whose parent directory was
-     removed from versioning but is still in the basis succeeds and corrupts the state)
- mkdir-below-unversioned-directory-leaves-directory (bzr: mkdir raises NotVersionedError, directory left on disk)
- git-rename-after-unversioned-source                (git: rename_one of a path that does not exist onto an
-     unversioned file "succeeds" and versions the file)
+Known findings (family slugs computed from the concrete failing step; entries in
+known_findings.json):
  git-rename-detection-pairs-modified-file-with-added-copy (git: status reports a modified file also as renamed
      to a new file with its old content; revert then versions `c.moved` and loses the added file)
  git-revert-raises-after-remove-keep                (git: revert raises KeyError when a committed file was removed with
      keep_files and its directory is no longer versioned)
+Found by this check and FIXED in /repo (no family any more: a regression is a plain VIOLATION; the minimal
+sequences stay in corpus/C09 and run first):
+ 1f6467c add of a path below a directory that was removed from versioning but is still in the basis succeeded
+ 011e662 mkdir below an unversioned directory raised but left the directory on disk
+ 5189316 git rename_one of a path that does not exist onto an unversioned file versioned the file
 
-Mutants tried (scratch worktree, families above treated as known):
+Mutants tried (scratch worktree, known findings treated as known):
+ f1/f2/f3 each of the three fix: commits reverted                                  -> oracle, minimal sequences (see report)
  m2 InventoryWorkingTree._move_entry: inv.rename(..., entry.from_tail)             -> oracle (error not atomic / status)
  m4 MutableGitIndexTree.rename_one: index entry of the old path kept               -> oracle (status vs listing) + T2
  m5 transform._alter_files (revert): content of added files not kept               -> oracle (revert deleted files outside the basis)
@@ -53,8 +54,8 @@ import shutil
 from vlib import env
 
 THEOREMS = [
-    "reopen_id", "run_append", "step_error_unchanged_partial", "mkdir_error_witness", "changesOf_self",
-    "commit_status_empty", "status_sound_complete", "revert_restores", "revert_only_basis", "git_rename_after_witness",
+    "reopen_id", "run_append", "step_error_unchanged", "mkdir_error_no_leftover", "rename_missing_source_fails",
+    "changesOf_self", "commit_status_empty", "status_sound_complete", "revert_restores", "revert_only_basis",
 ]
 RULE = ("case = (format, op sequence generated adaptively from the real tree, with re-open at random points); compared after "
         "every step; distinct by (format, canonical op list); non-trivial = at least 3 successful mutating ops and one of "
@@ -62,6 +63,7 @@ RULE = ("case = (format, op sequence generated adaptively from the real tree, wi
 ASSUMPTIONS = [
     "names from {a,b,c,d}, depth <= 3, contents from 4 values; sequences <= 25 ops (70 per quick run, 400 per thorough run); theorems are unbounded",
     "files are never replaced by directories on disk behind the tree's back (kind changes) and versioned files are only deleted through remove",
+    "bzr rename_one / move of a path that is not versioned any more but still in the basis (resurrects the basis entry) is outside the model: such operations are skipped",
     "revert is run with backups=False; conflicts of revert other than 'unversioned object in the way -> .moved' are avoided by the generator",
     "case-sensitive UTF-8 file system",
 ]
@@ -269,18 +271,6 @@ def git_copy_of_modified(committed, current):
     return False
 
 
-def readd_below_removed(done, committed, listing):
-    """the last successful `add` named a path whose parent directory is versioned in the
-    basis but not in the working tree"""
-    cb = {l.split("|")[0] for l in committed}
-    for op, res in reversed(done):
-        if op[0] == "add" and res == "ok" and "/" in op[1]:
-            parent = op[1].rsplit("/", 1)[0]
-            if parent in cb:
-                return True
-    return False
-
-
 def enc_op(op):
     k = op[0]
     P = lambda p: p or "."
@@ -382,6 +372,7 @@ def run_real(fmt, ops=None, rng=None, length=0, gen=True):
         disk = r.disk()
         prev_status = status_bzr(r.changes())
         i = 0
+        skipped = 0
         while True:
             if ops is not None:
                 if i >= len(ops):
@@ -394,6 +385,12 @@ def run_real(fmt, ops=None, rng=None, length=0, gen=True):
                 if op[0] == "revert" and risky_revert(listing, committed, disk):
                     op = ("reopen",)
             i += 1
+            if fmt == "bzr" and op[0] in ("rename", "move") and (op[1] or ".") not in {
+                    l.split("|")[0] for l in listing} and (op[1] or ".") in {l.split("|")[0] for l in committed}:
+                # outside the modelled envelope (documented bzr feature: rename_one of a path that
+                # is no longer versioned but still in the basis puts the basis entry back): skipped
+                skipped += 1
+                continue
             res = r.do(op)
             new_listing = r.listing()
             ch = r.changes()
@@ -415,12 +412,8 @@ def run_real(fmt, ops=None, rng=None, length=0, gen=True):
                     problems.append((where, "operation raised %s but the tree changed: versioned %r -> %r" % (
                         res, sorted(set(listing) ^ set(new_listing))[:4], sorted(set(sb) ^ set(prev_status))[:3]), "error-not-atomic", None))
                 elif new_disk != disk:
-                    fam = None
-                    if op[0] == "mkdir" and set(new_disk) - set(disk) == {(op[1], "d")} and op[1].rsplit("/", 1)[0] not in {
-                            l.split("|")[0] for l in listing}:
-                        fam = "mkdir-below-unversioned-directory-leaves-directory"
                     problems.append((where, "operation raised %s but the directory contents changed: %r" % (
-                        res, sorted(set(disk) ^ set(new_disk))[:4]), "error-not-atomic-disk", fam))
+                        res, sorted(set(disk) ^ set(new_disk))[:4]), "error-not-atomic-disk", None))
             else:
                 if op[0] == "commit":
                     committed = new_listing
@@ -459,26 +452,21 @@ def run_real(fmt, ops=None, rng=None, length=0, gen=True):
             # an operation on a source path that is not versioned must not change what is versioned
             if res == "ok" and op[0] in ("rename", "move", "remove") and (op[1] or ".") not in {
                     l.split("|")[0] for l in listing} and (new_listing != listing or sb != prev_status):
-                fam = None
-                if fmt == "git" and op[0] in ("rename", "move") and not os.path.lexists(r.full(op[1])):
-                    fam = "git-rename-after-unversioned-source"
                 problems.append((where, "%s of the unversioned path %r changed the tree: %r" % (
-                    op[0], op[1], sorted(set(listing) ^ set(new_listing))[:4]), "unversioned-source", fam))
+                    op[0], op[1], sorted(set(listing) ^ set(new_listing))[:4]), "unversioned-source", None))
             # status sound and complete w.r.t. the listings
             exp = expected_status(committed, new_listing)
             got = status_paths(ch, committed, new_listing)
             if exp != got:
                 fam = None
-                if fmt == "bzr" and readd_below_removed(done + [(list(op), res)], committed, listing):
-                    fam = "dirstate-add-below-unversioned-directory-of-basis"
-                elif fmt == "git" and git_copy_of_modified(committed, new_listing):
+                if fmt == "git" and git_copy_of_modified(committed, new_listing):
                     fam = "git-rename-detection-pairs-modified-file-with-added-copy"
                 problems.append((where, "status says %r, the listings differ by %r" % (
                     sorted(set(got) - set(exp))[:4], sorted(set(exp) - set(got))[:4]), "status-sound-complete", fam))
             steps.append("%s@%s@%s" % ("ok" if res == "ok" else "err", ";".join(new_listing) or "-", ";".join(st) or "-"))
             done.append((list(op), res))
             listing, disk, prev_status = new_listing, new_disk, sb
-        return dict(ops=[d[0] for d in done], results=[d[1] for d in done], steps=steps, problems=problems)
+        return dict(ops=[d[0] for d in done], results=[d[1] for d in done], steps=steps, problems=problems, skipped=skipped)
     finally:
         r.close()
 
@@ -569,6 +557,8 @@ def check_result(ctx, fmt, res, shrink=True):
         if r != "ok":
             ctx.count("%s:%s" % (fmt, r))
     ctx.count("len:%d" % (len(ops) // 5 * 5))
+    if res.get("skipped"):
+        ctx.count("skipped:bzr-rename-of-removed-basis-path", res["skipped"])
     # oracle
     # only the first problem of a sequence is reported: later ones are consequences
     for where, what, slug, fam in res["problems"][:1]:
